@@ -9,8 +9,12 @@ from .c09 import Spec
 from .memcharts import mem_chart, written, WRITABLE
 
 
-def ob_writer_order(game, keys, variant, ctx):
+def ob_writer_order(game, keys, variant, ctx, stops=False):
     sp = Spec(ctx, keys, variant, zero_start=game == "bms")
+    if stops:  # StepMania stop list (an "other list" of the chart): two stops of different lengths
+        from fractions import Fraction as F
+
+        sp.stops = [(F(2), 250.0), (F(6), 125.0), (F(10), 500.0)]
     a = written(ctx, game, mem_chart(ctx, sp, game, perm=False))
     b = written(ctx, game, mem_chart(ctx, sp, game, perm=True))
     ctx.check("both-well-formed", not a["ill"] and not b["ill"], note="%r %r" % (a["ill"][:1], b["ill"][:1]))
@@ -22,6 +26,7 @@ def ob_writer_order(game, keys, variant, ctx):
         ctx.check("written-files.same-%s" % k, cell_same(ctx, a["extra"][k], b["extra"][k]))
     if game == "sm":
         ctx.check("written-files.same-offset", ctx.eq(a["offset_ms"], b["offset_ms"]))
+        ctx.check("written-files.same-stops", same_multiset(ctx, a["stops"], b["stops"]), note="%r vs %r" % (a["stops"], b["stops"]))
 
 
 def obligations(tier, seed):
@@ -32,4 +37,6 @@ def obligations(tier, seed):
             obs.append(Obligation("C15/write/%s/K%d/%s" % (g, keys, variant), partial(ob_writer_order, g, keys, variant),
                                   bound="%s chart (%d keys, variant %s) and the same chart with every list's rows reversed: both written, both files interpreted by the reference reader" % (g, keys, variant),
                                   max_paths=3000, timeout_s=300))
+    obs.append(Obligation("C15/write/sm/K4/a/with-stops", partial(ob_writer_order, "sm", 4, "a", stops=True),
+                          bound="StepMania chart with three stops of different lengths; every list (stops included) reversed"))
     return obs
